@@ -2,10 +2,15 @@
 import ast, builtins, collections, re, symtable
 
 def decode(b: bytes):
-    return b.decode("utf-8-sig")
+    """source bytes -> text the way Python reads a source file: BOM, else PEP 263 cookie, else UTF-8 (raises UnicodeDecodeError / SyntaxError-free LookupError as UnicodeDecodeError)"""
+    import io, tokenize
+    try: enc, _ = tokenize.detect_encoding(io.BytesIO(b).readline)
+    except SyntaxError: enc = "utf-8"
+    if enc == "utf-8": return b.decode("utf-8-sig")
+    return b.decode(enc)
 
-def parses(text: str):
-    """returns ('compile'|'parse'|None, error)"""
+def parses(text):
+    """text: str or source bytes. returns ('compile'|'parse'|None, error)"""
     try:
         compile(text, "<f>", "exec", dont_inherit=True); return "compile", None
     except SyntaxError as e:
@@ -13,7 +18,7 @@ def parses(text: str):
             ast.parse(text); return "parse", str(e)
         except SyntaxError as e2:
             return None, str(e2)
-    except ValueError as e:  # NUL bytes
+    except (ValueError, LookupError) as e:  # NUL bytes, unknown codec in a cookie
         return None, str(e)
 
 _BUILTINS = set(dir(builtins)) | {"__file__", "__name__", "__doc__", "__builtins__", "__spec__", "__loader__", "__package__", "__path__", "__class__", "__annotations__", "__dict__", "__module__", "__qualname__", "__debug__"}
